@@ -43,6 +43,9 @@ def add_axis(tree: A, index: int, transform_metadata: tp.Mapping) -> A:
 
   def insert_field(fields, index, value):
     iterable = list(fields)
+    if index < 0:
+      # a negative index refers to the position in the stacked array.
+      index += len(iterable) + 1
     while len(iterable) < index:
       iterable.append(None)
     iterable.insert(index, value)
